@@ -3,6 +3,10 @@ use crate::fields::*;
 use crate::parser::utils::*;
 use serde::{Deserialize, Serialize};
 
+/// Two amounts are equal when they differ by less than half of the smallest unit any currency
+/// has (four decimals); 0.01 would let a difference of one cent pass.
+const AMOUNT_EPSILON: f64 = 0.00005;
+
 /// Sequence B - Transaction details
 #[derive(Debug, Clone, Serialize, Deserialize, PartialEq)]
 #[cfg_attr(feature = "jsonschema", derive(schemars::JsonSchema))]
@@ -808,7 +812,8 @@ impl MT104 {
                 let amount_33b = field_33b.amount;
 
                 // Check if both currency and amount are the same
-                if currency_32b == currency_33b && (amount_32b - amount_33b).abs() < 0.01 {
+                if currency_32b == currency_33b && (amount_32b - amount_33b).abs() < AMOUNT_EPSILON
+                {
                     errors.push(SwiftValidationError::content_error(
                         "D21",
                         "33B",
@@ -896,7 +901,7 @@ impl MT104 {
         // Calculate sum of amounts in Sequence B
         let sum_of_amounts: f64 = self.transactions.iter().map(|tx| tx.field_32b.amount).sum();
 
-        let amounts_equal = (settlement_amount - sum_of_amounts).abs() < 0.01;
+        let amounts_equal = (settlement_amount - sum_of_amounts).abs() < AMOUNT_EPSILON;
 
         if amounts_equal && self.field_19.is_some() {
             return Some(SwiftValidationError::content_error(
@@ -927,7 +932,7 @@ impl MT104 {
             // Calculate sum of amounts in Sequence B
             let sum_of_amounts: f64 = self.transactions.iter().map(|tx| tx.field_32b.amount).sum();
 
-            if (field_19.amount - sum_of_amounts).abs() > 0.01 {
+            if (field_19.amount - sum_of_amounts).abs() > AMOUNT_EPSILON {
                 return Some(SwiftValidationError::content_error(
                     "C01",
                     "19",
